@@ -97,3 +97,49 @@ proof fn lemma_enum_prefix_empty(p: spec_fn(int) -> bool, cur: int, lo: int)
 {
     if cur > 0 { lemma_enum_prefix_empty(p, cur - 1, lo); } 
 }
+
+// a group-aligned position below a table of at least one group leaves room for a whole group
+proof fn lemma_aligned_room(p: int, n: int)
+    requires mem_ok(), n == mem_nb(), n >= Group::WIDTH, 0 <= p < n, p % (Group::WIDTH as int) == 0,
+    ensures p + Group::WIDTH <= n, n % (Group::WIDTH as int) == 0,
+{
+    let nu = n as usize;
+    assert(nu >= 8 && nu != 0 && (nu & sub(nu, 1)) == 0 ==> nu % 8 == 0) by(bit_vector);
+    assert(nu >= 16 && nu != 0 && (nu & sub(nu, 1)) == 0 ==> nu % 16 == 0) by(bit_vector);
+}
+
+proof fn lemma_enum_len(p: spec_fn(int) -> bool, hi: int)
+    ensures enum_upto(p, hi).len() == count_upto(p, hi),
+    decreases hi,
+{
+    if hi > 0 { lemma_enum_len(p, hi - 1); }
+}
+
+proof fn lemma_enum_is_prefix(p: spec_fn(int) -> bool, lo: int, hi: int)
+    requires lo <= hi,
+    ensures
+        enum_upto(p, lo).len() <= enum_upto(p, hi).len(),
+        forall|k: int| 0 <= k < enum_upto(p, lo).len() ==> #[trigger] enum_upto(p, hi)[k] == enum_upto(p, lo)[k],
+    decreases hi - lo,
+{
+    if lo < hi { lemma_enum_is_prefix(p, lo, hi - 1); }
+}
+
+// "take the smallest remaining member" is "take the next entry of the ascending enumeration": when everything
+// below `cur` has been delivered, the smallest member b >= cur is entry number count_upto(p, cur).  This is
+// what turns the contracts of RawIter::next / FullBucketsIndices::next (smallest remaining bucket, exactly it
+// removed) into the sequence form that unit resize assumes for its `for` loop.
+proof fn lemma_min_is_next_enum(p: spec_fn(int) -> bool, cur: int, b: int, hi: int)
+    requires 0 <= cur <= b < hi, p(b), forall|j: int| cur <= j < b ==> !#[trigger] p(j),
+    ensures
+        count_upto(p, cur) < enum_upto(p, hi).len(),
+        enum_upto(p, hi)[count_upto(p, cur) as int] == b,
+        count_upto(p, b + 1) == count_upto(p, cur) + 1,
+{
+    lemma_enum_step(p, cur, b);
+    lemma_enum_len(p, cur);
+    lemma_enum_len(p, b + 1);
+    lemma_enum_is_prefix(p, b + 1, hi);
+    let k = count_upto(p, cur) as int;
+    assert(enum_upto(p, b + 1)[k] == b);
+}
